@@ -434,14 +434,31 @@ theorem enumPerm_of_perm {xs ys : List Val} (h : xs.Perm ys) : EnumPerm (.arr .e
 
 example : EnumPerm (.arr .enum [n1, n2]) (.arr .enum [n2, n1]) := enumPerm_of_perm (List.Perm.swap ..)
 
+/-- how to build related containers: arrays (the elements first, then — for a map-ordered array — any permutation) -/
+theorem enumPerm_arr {t : ATag} {xs zs ys : List Val} (hl : EnumPermL xs zs)
+    (hp : if t = .enum then zs.Perm ys else zs = ys) : EnumPerm (.arr t xs) (.arr t ys) := by
+  simp only [EnumPerm]
+  exact ⟨zs, ys, rfl, hl, hp⟩
+theorem enumPerm_obj {kvs kvs' : List (Bytes × Val)} (h : EnumPermF kvs kvs') : EnumPerm (.obj kvs) (.obj kvs') := by
+  simp only [EnumPerm]
+  exact ⟨kvs', rfl, h⟩
+theorem enumPermL_cons {x y : Val} {xs ys : List Val} (h : EnumPerm x y) (hl : EnumPermL xs ys) :
+    EnumPermL (x :: xs) (y :: ys) := by
+  simp only [EnumPermL]
+  exact ⟨y, ys, rfl, h, hl⟩
+theorem enumPermF_cons {k : Bytes} {x y : Val} {xs ys : List (Bytes × Val)} (h : EnumPerm x y)
+    (hl : EnumPermF xs ys) : EnumPermF ((k, x) :: xs) ((k, y) :: ys) := by
+  simp only [EnumPermF]
+  exact ⟨y, ys, rfl, h, hl⟩
+
 /-- …also when it sits inside another value (here: inside a plain array inside an object) -/
 example : EnumPerm (.obj [([0x61], .arr .plain [.null, .arr .enum [n1, n2]])])
-    (.obj [([0x61], .arr .plain [.null, .arr .enum [n2, n1]])]) := by
-  simp only [EnumPerm, EnumPermF, EnumPermL]
-  refine ⟨_, rfl, _, _, rfl, ⟨_, _, rfl, ⟨_, _, rfl, rfl, _, _, rfl, ⟨[n1, n2], _, rfl, ?_, ?_⟩, rfl⟩, ?_⟩, rfl⟩
-  · exact ⟨_, _, rfl, enumPerm_refl _, _, _, rfl, enumPerm_refl _, rfl⟩
-  · simpa using List.Perm.swap ..
-  · simp
+    (.obj [([0x61], .arr .plain [.null, .arr .enum [n2, n1]])]) :=
+  enumPerm_obj (enumPermF_cons
+    (enumPerm_arr (zs := [.null, .arr .enum [n2, n1]])
+      (enumPermL_cons (enumPerm_refl _) (enumPermL_cons (enumPerm_of_perm (List.Perm.swap ..)) (enumPermL_refl [])))
+      (by simp))
+    (enumPermF_refl []))
 
 /-- …whereas a plain array is related only to itself -/
 example : ¬ EnumPerm (.arr .plain [n1, n2]) (.arr .plain [n2, n1]) := by
@@ -469,8 +486,8 @@ theorem enumPerm_eq_of_noEnum2 : ∀ {x x' : Val}, x.hasEnum2 = false → EnumPe
     simp only [EnumPerm] at hp
     obtain ⟨zs, ys, rfl, hl, hc⟩ := hp
     simp only [Val.hasEnum2, Bool.or_eq_false_iff] at h
-    have hz := enumPermL_eq_of_noEnum2 h.2 hl
-    subst hz
+    have hz : zs = xs := enumPermL_eq_of_noEnum2 h.2 hl
+    rw [hz] at hc
     split at hc
     · next ht =>
       subst ht
@@ -604,13 +621,13 @@ theorem contains_order_free {x y x' y' r : Val} (h : contains x y = .ok r) (hx :
       rw [enumPerm_eq_of_noEnum2 hc.2 hy]
       simp only [EnumPerm] at hx
       obtain ⟨zs, ys, rfl, hl, hperm⟩ := hx
-      have hz := enumPermL_eq_of_noEnum2 hc.1 hl
-      subst hz
+      have hz : zs = xs := enumPermL_eq_of_noEnum2 hc.1 hl
+      rw [hz] at hperm
       have hp : xs.Perm ys := by
         split at hperm
         · exact hperm
         · rw [hperm]
-      simp only [contains, hasEnum2L_perm hp hc.1, hc.2, Bool.or_self, Bool.false_eq_true, if_false]
+      simp only [contains, hasEnum2L_perm hp hc.1, hc.2]
       rw [← any_perm hp]
       exact h
   | str s =>
@@ -653,6 +670,6 @@ example : contains (.arr .enum [n2, n1]) n2 = .ok (.bool true) :=
 
 /-- `contains` on a string haystack -/
 example : ∀ x' y', EnumPerm (.str [0x61, 0x62]) x' → EnumPerm (.str [0x62]) y' → contains x' y' = .ok (.bool true) :=
-  fun _ _ hx hy => contains_order_free (by decide_eq) hx hy
+  fun _ _ hx hy => contains_order_free (by rfl) hx hy
 
 end Jmes.C20B
